@@ -1,5 +1,5 @@
 (* C08 - retry, timeout and recovery contract of an exchange. Statements only. *)
-From MS Require Import lib.Base gen.GenLan model.Session proofs.SessionProofs proofs.SessionHoare proofs.SessionLive proofs.SessionDrain.
+From MS Require Import lib.Base gen.GenLan model.Session proofs.SessionProofs proofs.SessionHoare proofs.SessionLive proofs.SessionDrain proofs.SessionCredsFrame.
 Local Open Scope N_scope.
 
 (* at most `retries` transmissions of the request - in every state, for every environment *)
@@ -58,6 +58,15 @@ Theorem C08_drain_empties_queue : forall fuel w c acc, l_proto (w_lan w) = Some 
   read_available fuel acc w = (Ok (acc ++ kept c (c_q c)), match c_q c with [] => w | _ => wsetq [] w end).
 Proof. exact drain_empties_queue. Qed.
 Print Assumptions C08_drain_empties_queue.
+
+(* recovery needs the credentials: an exchange - whatever happens in it, including an automatic (re-)handshake that fails on a
+   transient fault - leaves the stored token/key exactly as they were, so the next exchange can authenticate again *)
+Theorem C08_exchange_keeps_credentials : forall f r w, l_creds (w_lan (snd (lan_send f r w))) = l_creds (w_lan w).
+Proof. exact exchange_keeps_credentials. Qed.
+Theorem C08_device_exchange_keeps_credentials : forall f w, l_creds (w_lan (snd (dev_send_command f w))) = l_creds (w_lan w).
+Proof. exact device_exchange_keeps_credentials. Qed.
+Print Assumptions C08_exchange_keeps_credentials.
+Print Assumptions C08_device_exchange_keeps_credentials.
 
 (* sentence 1 of C08 on an established session: on a live connection (V3: holding an unexpired session key) LAN.send with a
    budget of at least one transmits the request AT LEAST ONCE - for every content of the receive queue, every environment
